@@ -414,6 +414,8 @@ class Emit:
                 return "bool"
             if m == "divmod":
                 return ("tuple", [rt, rt])
+            if m == "cmp":
+                return "Ordering"
             return rt
         if k == "call":
             n = e[1][-1]
@@ -423,8 +425,12 @@ class Emit:
                 return ("Option", self.type_of(e[2][0]))
             if n in self.sigs:
                 return self.sigs[n][1]
+            if n in EXTERNAL:
+                return EXTERNAL[n][1]
             raise Unsupported(f"call to unknown fn {n}")
         if k == "index":
+            if e[1][0] == "path" and e[1][1][-1] in ARRAYS:
+                return ARRAYS[e[1][1][-1]][0]
             at = self.type_of(e[1])
             return at[1] if isinstance(at, tuple) else "?"
         if k == "field":
@@ -516,15 +522,23 @@ class Emit:
         if k == "call":
             return self.call(e, hint)
         if k == "index":
-            ls1, a = self.ex(e[1])
-            ls2, i = self.ex(e[2])
+            if e[1][0] == "path" and e[1][1][-1] in ARRAYS:
+                ls1, a = [], ARRAYS[e[1][1][-1]][1]
+            else:
+                ls1, a = self.ex(e[1])
+            ls2, i = self.ex(e[2], "usize")
             v = self.fresh()
             return ls1 + ls2 + [f"let {v} ← Rt.index ({a}) ({i})"], v
         if k == "field":
             ls, x = self.ex(e[1])
             return ls, f"({x}).{e[2] + 1}"
         if k == "try":
-            raise Unsupported("`?` outside a let")
+            # `e?` in a function returning Option: early exit with None, written as a flat `let some v := … | pure none`
+            if not (isinstance(self.ret, tuple) and self.ret[0] == "Option"):
+                raise Unsupported("`?` in a function that does not return Option")
+            ls, x = self.ex(e[1], ("Option", hint))
+            v = self.fresh()
+            return ls + [f"let some {v} := {x} | pure none"], v
         if k == "match":
             st = self.type_of(e[1])
             ls, x = self.ex(e[1], st)
@@ -648,6 +662,8 @@ class Emit:
             return ls, f"(Rt.sat {bits(t)} (({xr} : Int) {opmap[m[11:]]} {xs[0]}))"
         if m == "unsigned_abs":
             return ls, f"(Int.natAbs ({xr}))"
+        if m == "cmp":
+            return ls, f"(compare ({xr}) ({xs[0]}))"
         if m == "is_negative":
             return ls, f"decide ({xr} < 0)"
         if m == "is_positive":
@@ -672,15 +688,21 @@ class Emit:
         if n == "Some":
             ls, x = self.ex(args[0], hint[1] if isinstance(hint, tuple) else None)
             return ls, f"(some {x})"
-        if n not in self.sigs:
+        if n not in self.sigs and n not in EXTERNAL:
             raise Unsupported(f"call {n}")
-        ptys, rt, _ = self.sigs[n]
+        ptys = (self.sigs.get(n) or EXTERNAL[n])[0]
         ls, xs = [], []
         for a, (pn, pt) in zip(args, ptys):
             l, x = self.ex(a, pt)
             ls += l; xs.append(f"({x})")
         v = self.fresh()
-        return ls + [f"let {v} ← K.{n} prof " + " ".join(xs)], v
+        if n in self.sigs:
+            tm = ""
+            if TM_NEEDED.get(n):
+                self.needs_tm = True
+                tm = "tm "
+            return ls + [f"let {v} ← K.{n} prof {tm}" + " ".join(xs)], v
+        return ls + [f"let {v} ← {EXTERNAL[n][2]} " + " ".join(xs)], v
 
     # ---- statements / blocks (with early return: every block is translated to a term of type Outcome ret)
     def cond(self, e):
@@ -709,12 +731,6 @@ class Emit:
             return self.stmts_term(rest, tail, ind, k)
         if kind == "let":
             _, p, ty, e = s
-            if e[0] == "try":
-                inner = e[1]
-                ls, x = self.ex(inner, ("Option", ty))
-                pt = self.pat_lean(p, (ty or self.type_of(inner)[1]))
-                body = self.stmts_term(rest, tail, ind + 1, k)
-                return "".join(f"{pad}{l}\n" for l in ls) + f"{pad}match {x} with\n{pad}| none => pure none\n{pad}| some {pt} =>\n{body}"
             if ty is None and e[0] == "lit" and not e[2] and isinstance(self.ret, str) and self.ret in INT_TYPES:
                 ty = self.ret
             t = ty or self.type_of(e)
@@ -917,10 +933,19 @@ class Emit:
 
 
 # ----------------------------------------------------------------------------- driver
+GROUP_IMPORTS = {"KPow": ["Fpdec.Gen.Consts"], "KDivRounded": ["Fpdec.Gen.KRound", "Fpdec.Gen.KPow", "Fpdec.Model.Core"]}
 KERNELS = [
     # (group, file, fn name, self type for trait methods)
+    ("KPow", "fpdec-core/src/powers_of_ten.rs", "ten_pow", None),
+    ("KPow", "fpdec-core/src/powers_of_ten.rs", "checked_ten_pow", None),
+    ("KPow", "fpdec-core/src/powers_of_ten.rs", "mul_pow_ten", None),
+    ("KPow", "fpdec-core/src/powers_of_ten.rs", "checked_mul_pow_ten", None),
+    ("KPow", "fpdec-core/src/lib.rs", "checked_adjust_coeffs", None),
     ("KRound", "fpdec-core/src/lib.rs", "i128_div_mod_floor", None),
     ("KRound", "fpdec-core/src/rounding.rs", "round_quot", None),
+    ("KDivRounded", "fpdec-core/src/rounding.rs", "i128_div_rounded", None),
+    ("KDivRounded", "fpdec-core/src/rounding.rs", "i128_shifted_div_rounded", None),
+    ("KDivRounded", "fpdec-core/src/rounding.rs", "i128_mul_div_ten_pow_rounded", None),
     ("KWide", "fpdec-core/src/lib.rs", "u128_hi", None),
     ("KWide", "fpdec-core/src/lib.rs", "u128_lo", None),
     ("KWide", "fpdec-core/src/lib.rs", "u128_mul_u128", None),
@@ -934,11 +959,16 @@ KERNELS = [
     ("KUnops", "src/unops.rs", "div_ceil", "i128"),
 ]
 
-# functions that generated code may call but that are modelled by hand (with their Lean counterpart)
+# functions that generated code may call but that are modelled by hand: params, return type, Lean head (with its fixed arguments)
 EXTERNAL = {
-    "ten_pow": ([("n", "u8")], "i128", "Model.tenPow"),
-    "checked_ten_pow": ([("n", "u8")], ("Option", "i128"), None),
+    "i128_shifted_div_mod_floor": ([("x", "i128"), ("p", "u8"), ("y", "i128")], ("Option", ("tuple", ["i128", "i128"])),
+                                   "Model.i128ShiftedDivModFloor prof"),
+    "i256_div_mod_floor": ([("x1", "i128"), ("x2", "i128"), ("y", "i128")], ("Option", ("tuple", ["i128", "i128"])),
+                           "Model.i256DivModFloor prof"),
 }
+# constant tables (element type, Lean name — generated by tools/fpextract.py from the same source)
+ARRAYS = {"POWERS_OF_10": ("i128", "Gen.POWERS_OF_10")}
+TM_NEEDED = {}
 
 
 def translate(repo):
@@ -970,7 +1000,7 @@ def translate(repo):
 
     def header(g):
         return groups.setdefault(g, [
-            "import Fpdec.Gen.Rt", "",
+            "import Fpdec.Gen.Rt"] + [f"import {m}" for m in GROUP_IMPORTS.get(g, [])] + ["",
             f"/-! GENERATED by tools/fpkernels.py from /repo — do not edit.  Mechanical translation of Rust kernels (group {g}). -/",
             "", "namespace Fpdec.Gen.K", "open Fpdec", ""])
     for g, f, name, selfty in KERNELS:
@@ -983,6 +1013,7 @@ def translate(repo):
                 term = em.block_term(body, 1)
                 ps = " ".join(f"({n} : {lean_ty(t)})" for n, t in params)
                 tmarg = "(tm : Mode) " if em.needs_tm else ""
+                TM_NEEDED[name] = em.needs_tm
                 lines = [f"/-- {f}: `fn {name}` -/",
                          f"def {name} (prof : Profile) {tmarg}{ps} : Outcome {lean_ty(ret)} := do",
                          term.rstrip("\n"), ""]
